@@ -78,6 +78,8 @@ const (
 
 type midElement struct {
 	handler HandlerFunc
+	// gaveUp is closed when the housekeeping gives the message up (nil: nobody waits for its acknowledgement)
+	gaveUp chan struct{}
 	// start is the time of the first transmission: it is set when the first write has returned (arm). Until then
 	// the message has not been sent (the write may wait, e.g. for the DTLS handshake) and must neither be
 	// re-sent nor given up on account of the retransmission timer.
@@ -547,11 +549,14 @@ func (cc *Conn) acquireOutstandingInteraction(ctx context.Context) error {
 	return nil
 }
 
-func (cc *Conn) waitForAcknowledge(req *pool.Message, waitForResponseChan chan struct{}) error {
+func (cc *Conn) waitForAcknowledge(req *pool.Message, waitForResponseChan chan struct{}, gaveUp chan struct{}) error {
 	cc.receivedMessageReader.TryToReplaceLoop()
 	select {
 	case <-waitForResponseChan:
 		return nil
+	case <-gaveUp:
+		// every copy was sent and none acknowledged: nothing more will be sent or matched for this message
+		return context.DeadlineExceeded
 	case <-req.Context().Done():
 		return req.Context().Err()
 	case <-cc.Context().Done():
@@ -559,7 +564,7 @@ func (cc *Conn) waitForAcknowledge(req *pool.Message, waitForResponseChan chan s
 	}
 }
 
-func (cc *Conn) prepareWriteMessage(req *pool.Message, handler HandlerFunc) (closeFn func(), arm func(), err error) {
+func (cc *Conn) prepareWriteMessage(req *pool.Message, handler HandlerFunc, gaveUp chan struct{}) (closeFn func(), arm func(), err error) {
 	var closeFns fn.FuncList
 	arm = func() {}
 
@@ -582,6 +587,7 @@ func (cc *Conn) prepareWriteMessage(req *pool.Message, handler HandlerFunc) (clo
 		deadline, _ := req.Context().Deadline()
 		elem := &midElement{
 			handler:  handler,
+			gaveUp:   gaveUp,
 			deadline: deadline,
 			private: struct {
 				sync.Mutex
@@ -610,7 +616,7 @@ func (cc *Conn) writeMessageAsync(req *pool.Message) error {
 	req.UpsertMessageID(cc.GetMessageID())
 	closeFn, _, err := cc.prepareWriteMessage(req, func(*responsewriter.ResponseWriter[*Conn], *pool.Message) {
 		// do nothing
-	})
+	}, nil)
 	if err != nil {
 		return err
 	}
@@ -630,9 +636,13 @@ func (cc *Conn) writeMessage(req *pool.Message) error {
 		return cc.writeMessageAsync(req)
 	}
 	respChan := make(chan struct{})
-	closeFn, arm, err := cc.prepareWriteMessage(req, func(*responsewriter.ResponseWriter[*Conn], *pool.Message) {
+	gaveUp := make(chan struct{})
+	var rejected atomic.Bool
+	closeFn, arm, err := cc.prepareWriteMessage(req, func(_ *responsewriter.ResponseWriter[*Conn], r *pool.Message) {
+		// a Reset rejects the message (RFC 7252 4.2): the exchange is over, no response will follow
+		rejected.Store(r.Type() == message.Reset)
 		close(respChan)
-	})
+	}, gaveUp)
 	if err != nil {
 		return err
 	}
@@ -641,8 +651,11 @@ func (cc *Conn) writeMessage(req *pool.Message) error {
 		return fmt.Errorf(errFmtWriteRequest, err)
 	}
 	arm()
-	if err := cc.waitForAcknowledge(req, respChan); err != nil {
+	if err := cc.waitForAcknowledge(req, respChan, gaveUp); err != nil {
 		return fmt.Errorf(errFmtWriteRequest, err)
+	}
+	if rejected.Load() {
+		return fmt.Errorf(errFmtWriteRequest, errors.New("the peer rejected the message with a Reset"))
 	}
 	return nil
 }
@@ -1131,7 +1144,19 @@ func (cc *Conn) Done() <-chan struct{} {
 
 func (cc *Conn) checkMidHandlerContainer(now time.Time, maxRetransmit uint32, acknowledgeTimeout time.Duration, key int32, value *midElement) {
 	if value.IsExpired(now, maxRetransmit, acknowledgeTimeout) {
-		cc.midHandlerContainer.Delete(key)
+		// (only if it still is the element that was examined: the ID may have been taken by a new message)
+		removed := false
+		cc.midHandlerContainer.ReplaceWithFunc(key, func(old *midElement, loaded bool) (*midElement, bool) {
+			if loaded && old == value {
+				removed = true
+				return nil, true
+			}
+			return old, !loaded
+		})
+		if removed && value.gaveUp != nil {
+			// tell the call that waits for the acknowledgement
+			close(value.gaveUp)
+		}
 		value.ReleaseMessage(cc)
 		cc.errors(fmt.Errorf(errFmtWriteRequest, context.DeadlineExceeded))
 		return
